@@ -44,7 +44,14 @@ M = [
     ("events-load-no-in-sets", "tel2puml/events.py", "        for eventSetList in eventInput.incomingEventSets:\n            event.in_event_sets.add(", "        for eventSetList in eventInput.incomingEventSets[:1]:\n            event.in_event_sets.add(", ["C04"], 0),
     ("events-load-count-one", "tel2puml/events.py", "                        for eventSet in eventSetList\n                        for _ in range(eventSet.count)\n                    ]\n                )\n            )\n        for eventSetList in eventInput.incomingEventSets", "                        for eventSet in eventSetList\n                        for _ in range(1)\n                    ]\n                )\n            )\n        for eventSetList in eventInput.incomingEventSets", ["C04"], 0),
     ("logic-or-always", "tel2puml/logic_detection.py", "    if len(non_tau_children) == 0:\n        return True\n", "    if len(non_tau_children) <= 1:\n        return True\n", ["C06", "C02"], 0),
-    ("puml-no-end-fork", "tel2puml/puml_graph.py", None, None, ["C05"], 0),
+    ("puml-or-closes-as-fork", "tel2puml/puml_graph.py", '("END", "OR"): (("end split",), -1, 1),', '("END", "OR"): (("end fork",), -1, 1),', ["C05"], 0),
+    ("puml-xor-indent", "tel2puml/puml_graph.py", '("PATH", "XOR"): ((\'case ("")\',), 0, 1),', '("PATH", "XOR"): ((\'case ("")\',), 0, 0),', ["C05"], 0),
+    ("walk-or-merge-unchecked", "tel2puml/pv_to_puml/walk_puml_graph/walk_puml_logic_graph.py", 'if self.logic_node.operator not in ["AND", "OR"]:', 'if self.logic_node.operator not in ["AND"]:', ["C01", "C02"], 0),
+    ("walk-merge-counter-ge", "tel2puml/pv_to_puml/walk_puml_graph/walk_puml_logic_graph.py", "if logic_block.merge_counter > len(logic_block.merge_nodes):", "if logic_block.merge_counter >= len(logic_block.merge_nodes):", ["C01", "C02"], 0),
+    ("loop-end-event-unfiltered", "tel2puml/loop_detection/sub_graph_of_loop.py", "                    if event_set.to_frozenset().issubset(loop_event_types):\n", "                    if True:\n", ["C01", "C02", "C05"], 0),
+    ("loop-start-event-unfiltered", "tel2puml/loop_detection/sub_graph_of_loop.py", "            if event_set.to_frozenset().issubset(start_event_types):\n", "            if True:\n", ["C01", "C02", "C07"], 0),
+    ("loop-keep-unreachable", "tel2puml/loop_detection/sub_graph_of_loop.py", "    sub_graph.remove_nodes_from(nodes_without_path_back)\n", "    pass\n", ["C07"], 0),
+    ("ingest-no-in-sets-for-forks", "tel2puml/pv_to_puml/data_ingestion.py", "        events[event_type].update_in_event_sets(\n            get_events_set_from_events_list(event.previous_events)\n        )", "        events[event_type].update_in_event_sets(\n            get_events_set_from_events_list(event.previous_events[:1])\n        )", ["C01", "C02"], 0),
     ("otelpv-skip-clean-names", "tel2puml/otel_to_pv/otel_to_pv.py", "    data_holder.update_job_names_by_root_span()\n", "    pass\n", ["C11", "C12"], 0),
     ("otelpv-clean-order", "tel2puml/otel_to_pv/otel_to_pv.py", "    data_holder.remove_inconsistent_jobs()\n", "    pass\n", ["C11"], 0),
     ("otelpv-save-drops-prev", "tel2puml/otel_to_pv/otel_to_pv.py", "                    for key, value in pv_event.items()\n", "                    for key, value in pv_event.items() if value\n", ["C14"], 0),
